@@ -39,6 +39,20 @@ def sdiv(n, d):
     return Ite(d != Z, n / Ite(d != Z, d, ONE), Z)
 
 
+def si_candidates(ax0, ay0, ax1, ay1, bx0, by0, bx1, by1):
+    """witness parameters (s, t) for `segments_intersect` answering True: b horizontal / b vertical"""
+    dax, day = ax1 - ax0, ay1 - ay0
+    dbx, dby = bx1 - bx0, by1 - by0
+    s_h = sdiv(by0 - ay0, day)
+    t_h = sdiv(ax0 + s_h * dax - bx0, dbx)
+    s_v = sdiv(bx0 - ax0, dax)
+    t_v = sdiv(ay0 + s_v * day - by0, dby)
+    # a crosses the line of b at s_h; or a lies on that line and an end point of b lies on a
+    cands_h = [(s_h, t_h), (sdiv(bx0 - ax0, dax), Z), (sdiv(bx1 - ax0, dax), ONE)]
+    cands_v = [(s_v, t_v), (sdiv(by0 - ay0, day), Z), (sdiv(by1 - ay0, day), ONE)]
+    return cands_h, cands_v
+
+
 def register(reg):
     F = Flt(finite=True)
     # ------------------------------------------------------------ segments_intersect_1d
@@ -53,25 +67,37 @@ def register(reg):
     def si_requires(c):
         horiz = And(c.by0 == c.by1, c.bx0 < c.bx1)
         vert = And(c.bx0 == c.bx1, c.by0 < c.by1)
-        return [('b-axis-parallel-positive-length', horiz if c.config['b'] == 'horizontal' else vert),
+        which = c.config.get('b')
+        # verified per case (b horizontal / b vertical); a caller has to establish one of the two
+        shape = Or(horiz, vert) if which is None else (horiz if which == 'horizontal' else vert)
+        return [('b-axis-parallel-positive-length', shape),
                 ('a-end-points-not-on-b', And(Not(onseg_qf(c.bx0, c.by0, c.bx1, c.by1, c.ax0, c.ay0)),
                                               Not(onseg_qf(c.bx0, c.by0, c.bx1, c.by1, c.ax1, c.ay1))))]
 
     def si_ensures(c, r):
         dax, day = c.ax1 - c.ax0, c.ay1 - c.ay0
         dbx, dby = c.bx1 - c.bx0, c.by1 - c.by0
-        # witness candidates for "result => they meet": the crossing parameters for a horizontal / vertical b
         s_h = sdiv(c.by0 - c.ay0, day)
-        t_h = sdiv(c.ax0 + s_h * dax - c.bx0, dbx)
         s_v = sdiv(c.bx0 - c.ax0, dax)
-        t_v = sdiv(c.ay0 + s_v * day - c.by0, dby)
-        if c.config['b'] == 'horizontal':
-            # a crosses the line of b at s_h; or a lies on that line and an end point of b lies on a
-            cands = [(s_h, t_h), (sdiv(c.bx0 - c.ax0, dax), Z), (sdiv(c.bx1 - c.ax0, dax), ONE)]
+        cands_h, cands_v = si_candidates(c.ax0, c.ay0, c.ax1, c.ay1, c.bx0, c.by0, c.bx1, c.by1)
+        which = c.config.get('b')
+        met_h, met_v = Or(*[meet_at(c, s, t) for s, t in cands_h]), Or(*[meet_at(c, s, t) for s, t in cands_v])
+        if which is None:
+            # at a call site: the union of the two verified cases
+            sound = And(Implies(c.by0 == c.by1, met_h), Implies(c.bx0 == c.bx1, met_v))
         else:
-            cands = [(s_v, t_v), (sdiv(c.by0 - c.ay0, day), Z), (sdiv(c.by1 - c.ay0, day), ONE)]
+            sound = met_h if which == 'horizontal' else met_v
+        # quantifier-free instance of `complete` at the crossing parameter (what call sites use)
+        px_h, py_v = c.ax0 + s_h * dax, c.ay0 + s_v * day
+        cross_h = And(day != Z, s_h >= Z, s_h <= ONE, c.bx0 <= px_h, px_h <= c.bx1)
+        cross_v = And(dax != Z, s_v >= Z, s_v <= ONE, c.by0 <= py_v, py_v <= c.by1)
+        if which is None:
+            cqf = And(Implies(And(c.by0 == c.by1, cross_h), r), Implies(And(c.bx0 == c.bx1, cross_v), r))
+        else:
+            cqf = Implies(cross_h if which == 'horizontal' else cross_v, r)
         return [('complete', forall(['real', 'real'], lambda s, t: Implies(meet_at(c, s, t), r))),
-                ('sound', Implies(r, Or(*[meet_at(c, s, t) for s, t in cands])))]
+                ('complete-at-crossing', cqf),
+                ('sound', Implies(r, sound))]
 
     reg.add(Contract(INT + '::segments_intersect', [(n, F) for n in names], returns=Bool(),
                      requires=si_requires, ensures=si_ensures, props=P, merge=False,
